@@ -106,6 +106,19 @@ func (d *dirState) sendTriedAny() bool {
 func (r *flowRun) teardown(srv mpx.Server, eps []*endpoint) {
 	r.errorsAtTeardown = len(r.log.errors)
 	r.tornDown = true
+	if !r.plan.Faulty {
+		// no connection may have been closed by anything the channels did
+		for _, p := range simnet.Cur().Pairs() {
+			if p.C.Dead() || p.S.Dead() {
+				simrt.Fail("C06-conn-closed", "connection %d was closed before the harness closed it (client end dead=%v, server end dead=%v): ending channels must not affect the connection", p.ID, p.C.Dead(), p.S.Dead())
+			}
+		}
+		for _, ep := range eps {
+			if ep.conn != nil && ep.conn.Closed().IsSet() {
+				simrt.Fail("C06-conn-closed", "a connection reports Closed before the harness closed it")
+			}
+		}
+	}
 	for _, ep := range eps {
 		ep.close()
 	}
